@@ -167,6 +167,11 @@ pub struct Lab {
     pub activity: u64,
     /// Optional sink for log lines emitted by callbacks (set by the tracing harness).
     pub log_hook: Option<fn(&str)>,
+    /// Optional factory of an object created inside a callback and kept alive after the callback
+    /// returned (tracing harness: a child span that outlives its step), until the schedule releases
+    /// the pseudo-gate `span:<key>#<inv>`.
+    pub span_hook: Option<fn(&str) -> Box<dyn std::any::Any>>,
+    pub held: Vec<(usize, Box<dyn std::any::Any>)>,
     /// Polls of the lab parser stream after it had returned `None`.
     pub parser_polled_after_end: u64,
 }
@@ -332,6 +337,11 @@ pub fn log_count(key: &str, inv: usize, phase: &str) -> u64 {
     if h % 16 == 3 { 20 + (h / 16) % 45 } else { h % 3 }
 }
 
+/// Free text after a log token: separators the integration uses internally (`__`), quotes, `=`.
+pub fn log_tail(j: u64) -> &'static str {
+    ["", " user__id=7 __init__", " a \"quoted\" field=1", " trailing__"][(j % 4) as usize]
+}
+
 pub async fn callback(key: String, world: Option<&mut W>, reason: Option<Reason>, args: Option<String>) {
     let (wid, cnt) = world.as_ref().map_or((None, 0), |w| (Some(w.id), w.counter));
     let (inv, entry) = with_lab(|l| {
@@ -363,7 +373,7 @@ pub async fn callback(key: String, world: Option<&mut W>, reason: Option<Reason>
     let nlogs = |phase: &str| log_count(&key, inv, phase);
     if let Some(h) = hook {
         for j in 0..nlogs("pre") {
-            h(&format!("LOGTOK|{key}|{inv}|{}|pre{j}|END", wid.map_or("-".to_string(), |w| w.to_string())));
+            h(&format!("LOGTOK|{key}|{inv}|{}|pre{j}|END{}", wid.map_or("-".to_string(), |w| w.to_string()), log_tail(j)));
         }
     }
     for g in 0..entry.gates {
@@ -371,7 +381,20 @@ pub async fn callback(key: String, world: Option<&mut W>, reason: Option<Reason>
     }
     if let Some(h) = hook {
         for j in 0..nlogs("post") {
-            h(&format!("LOGTOK|{key}|{inv}|{}|post{j}|END", wid.map_or("-".to_string(), |w| w.to_string())));
+            h(&format!("LOGTOK|{key}|{inv}|{}|post{j}|END{}", wid.map_or("-".to_string(), |w| w.to_string()), log_tail(j + 1)));
+        }
+    }
+    if let Some(sh) = with_lab(|l| l.span_hook) {
+        if crate::tape::hash_str(&format!("{key}#{inv}span")) % 6 == 0 {
+            let obj = sh(&format!("{key}#{inv}"));
+            with_lab(|l| {
+                let id = l.next_gate;
+                l.next_gate += 1;
+                let seq = l.tick();
+                l.activity += 1;
+                l.held.push((id, obj));
+                l.pending.push(PendingGate { id, waker: futures::task::noop_waker(), label: format!("span:{key}#{inv}"), seq });
+            });
         }
     }
     with_lab(|l| {
